@@ -405,7 +405,7 @@ func (fr *FuncRun) atCallAsserts(f *Frame, st *State, c *ssa.CallCommon, name st
 	}
 	k := 0
 	for _, ac := range top.contract.AtCalls {
-		if ac.Assume || ac.Callee != name {
+		if ac.Assume || ac.Callee != name || ac.Ghost != nil {
 			continue
 		}
 		k++
@@ -425,6 +425,53 @@ func (fr *FuncRun) atCallAsserts(f *Frame, st *State, c *ssa.CallCommon, name st
 		t := fr.evalClause(ctx, ac.Clause)
 		fr.assertOb(st, "callsite", fmt.Sprintf("%s:%d", name, k), t, pos, "call-site assertion at "+name+": "+ac.Clause.Text)
 		fr.callsiteSeen[fmt.Sprintf("%s:%d", name, k)] = true
+	}
+}
+
+// ghostUpdates executes the ghost assignments bound to this call.
+func (fr *FuncRun) ghostUpdates(f *Frame, st *State, c *ssa.CallCommon, name string, fnVal Val, args []Val) {
+	top := fr.contractFrame(f)
+	if top == nil {
+		return
+	}
+	for _, ac := range top.contract.AtCalls {
+		if ac.Ghost == nil || ac.Callee != name {
+			continue
+		}
+		if ac.Ord != 0 && ac.Ord != fr.globalCallOrd(name) {
+			continue
+		}
+		binds := fr.callBinds(f, c, fnVal, args)
+		for n, v := range fr.paramBinds(top.fn, top.params) {
+			if !strings.HasPrefix(n, "arg") {
+				binds[n] = v
+			}
+		}
+		ctx := &EvalCtx{fr: fr, f: top, st: st, old: top.entry, pkg: fr.eng.pkgOf(top.fn), binds: binds}
+		key := cellKey{0, "ghost:" + ac.Ghost.Name}
+		cur, ok := st.cells[key]
+		if !ok {
+			fr.errorf("contract %s:%d: unknown ghost %q", shortFile(ac.Clause.File), ac.Clause.Line, ac.Ghost.Name)
+			continue
+		}
+		var idx []string
+		for _, ie := range ac.Ghost.Index {
+			idx = append(idx, ctx.eval(ie).T)
+		}
+		val := ctx.eval(ac.Ghost.Value)
+		for _, e := range ctx.errs {
+			fr.errorf("contract %s:%d: %s", shortFile(ac.Clause.File), ac.Clause.Line, e)
+		}
+		// nested store
+		var build func(arr string, i int) string
+		build = func(arr string, i int) string {
+			if i == len(idx) {
+				return val.T
+			}
+			return sto(arr, idx[i], build(sel(arr, idx[i]), i+1))
+		}
+		st.cells[key] = Val{T: fr.defAlways(cur.S, build(cur.T, 0), "ghost_"+ac.Ghost.Name), S: cur.S}
+		fr.noteCellWrite(key)
 	}
 }
 
@@ -624,6 +671,9 @@ func (e *Engine) VerifyFunction(fn *ssa.Function) *FuncResult {
 			f.regs[fv] = v
 		}
 	}
+	for _, g := range f.contract.Ghosts {
+		st.cells[cellKey{0, "ghost:" + g.Name}] = Val{T: fr.fresh(g.Sort, "ghost_"+g.Name), S: g.Sort}
+	}
 	f.entry = st.clone()
 	// preconditions
 	ctx := &EvalCtx{fr: fr, f: f, st: st, old: f.entry, pkg: e.pkgOf(fn), binds: fr.paramBinds(fn, f.params)}
@@ -691,7 +741,7 @@ func (e *Engine) VerifyFunction(fn *ssa.Function) *FuncResult {
 	if fc != nil {
 		k := map[string]int{}
 		for _, ac := range fc.AtCalls {
-			if ac.Assume {
+			if ac.Assume || ac.Ghost != nil {
 				continue
 			}
 			k[ac.Callee]++
